@@ -203,6 +203,48 @@ def run_driver(layer, lines, timeout=600):
     return out
 
 
+class DriverProc:
+    """one long-lived `mxdriver <layer>` process per layer for drivers that flush after every line (struct,
+    relative): a check that asks the model thousands of small questions does not pay a process start for each.
+    Every question starts with `reset`, so questions are independent of each other."""
+    procs = {}
+
+    @classmethod
+    def ask(cls, layer, lines):
+        USED_LAYERS.add(layer)
+        p = cls.procs.get(layer)
+        if p is None or p.poll() is not None:
+            if not os.path.exists(DRIVER):
+                raise Infra("driver not built: " + DRIVER)
+            p = subprocess.Popen([DRIVER, layer], stdin=subprocess.PIPE, stdout=subprocess.PIPE, text=True, bufsize=1)
+            cls.procs[layer] = p
+        out = []
+        for i in range(0, len(lines), 200):       # chunks smaller than the pipe buffers, answers read in between
+            chunk = lines[i:i + 200]
+            p.stdin.write("\n".join(chunk) + "\n")
+            p.stdin.flush()
+            for _ in chunk:
+                line = p.stdout.readline()
+                if not line:
+                    raise Infra("model driver %s died (rc=%s)" % (layer, p.poll()))
+                out.append(line.rstrip("\n"))
+        return out
+
+    @classmethod
+    def close(cls):
+        for p in cls.procs.values():
+            try:
+                p.stdin.close()
+                p.wait(timeout=5)
+            except Exception:
+                p.kill()
+        cls.procs = {}
+
+
+import atexit  # noqa: E402
+atexit.register(DriverProc.close)
+
+
 # --------------------------------------------------------------------------------------
 # findings, replays, evidence
 
